@@ -32,7 +32,7 @@ class ExploreResult:
         self.covered = set()
 
 
-def explore(program, name, driver, setup=None, timeout_ms=20000, max_paths=4000, record_smt=False, stop_on_sat=False):
+def explore(program, name, driver, setup=None, timeout_ms=20000, max_paths=4000, record_smt=False, stop_on_sat=False, recheck=0):
     """driver(it) runs one path; returns a short outcome label."""
     res = ExploreResult(name)
     work = [[]]
@@ -43,6 +43,8 @@ def explore(program, name, driver, setup=None, timeout_ms=20000, max_paths=4000,
             break
         prefix = work.pop()
         ctx = Ctx(program, prefix, timeout_ms=timeout_ms, record_smt=record_smt)
+        if recheck > 0 and len(res.paths) < 3:
+            ctx.recheck_left = recheck
         it = Interp(program, ctx)
         if setup is not None:
             setup(it)
